@@ -20,7 +20,7 @@ RULE = ('operators (+ - * / ** neg ==, reflected with plain numbers), value(unit
         'distinct by (operation, operand kinds and units, follow-up steps)')
 SHARDS = {'quick': 16, 'thorough': 16}
 MIN_NONTRIVIAL = {'quick': 2500, 'thorough': 60000}
-REQUIRED_CLASSES = ['kind:same-dimension-units-in-one-expression', 'reflected-numpy', 'neutral-element-operand', 'op:+', 'op:-', 'op:*', 'op:/', 'op:==', 'op:pow', 'op:neg', 'op:getitem', 'op:value', 'op:ufunc', 'op:func', 'op:builtin-sum',
+REQUIRED_CLASSES = ['kind:same-dimension-units-in-one-expression', 'reflected-numpy', 'neutral-element-operand', 'op:+', 'op:-', 'op:*', 'op:/', 'op:==', 'op:pow', 'op:neg', 'op:getitem', 'op:value', 'op:ufunc', 'op:func', 'op:builtin-sum', 'followup:toq', 'op:value-with-dtype', 'op:value-level-in-linear-unit', 'op:pow-fraction-object',
                     'reflected', 'kind:same-unit', 'kind:other-unit', 'kind:reciprocal', 'kind:nodim', 'kind:log', 'kind:temp',
                     'kind:decimal', 'kind:array', 'kind:uncertain', 'followup:to', 'followup:rebase', 'followup:abse', 'followup:rele',
                     'followup:write', 'followup-on-result', 'followup-on-operand', 'twin-probe', 'repo-tests-under-contracts']
@@ -58,6 +58,7 @@ FAM = {
 RECIP = {'time': 'freq', 'freq': 'time'}
 LOGS = ['dBm', 'dBW', 'dB', 'dBV', 'Bm', 'dBSPL']
 TEMPS = ['K', 'Cel', 'degF', 'degR', 'mK']
+LOG_LINEAR = {'dBm': ['mW', 'W', 'Np'], 'dBW': ['W', 'kW'], 'dB': ['PR', 'AR', 'Np', 'B'], 'dBV': ['V', 'mV'], 'Bm': ['mW', 'dBm'], 'dBSPL': ['Pa']}
 UFUNCS = ['sqrt', 'cbrt', 'power', 'sin', 'cos', 'tan', 'arcsin', 'arccos', 'arctan', 'isnan', 'absolute', 'negative', 'square']
 FUNCS = ['linspace', 'logspace', 'abs', 'round', 'floor', 'ceil', 'sum', 'absolute']
 
@@ -143,7 +144,7 @@ def cases(rng, tier, shard, nshards, ctx):
         elif o < 0.52:
             op = dict(k='eq', side=rng.choice(['QQ', 'QQ', 'Qn']), num=rng.choice([2.0, 1]))
         elif o < 0.58:
-            op = dict(k='pow', e=rng.choice([2, -1, 3, [1, 2], 0.5, [3, 2], 0, 1]))
+            op = dict(k='pow', e=rng.choice([2, -1, 3, [1, 2], 0.5, [3, 2], 0, 1]), fraction_object=rng.random() < 0.5)
         elif o < 0.605:
             op = dict(k='pysum', n=rng.choice([1, 1, 2]))
         elif o < 0.62:
@@ -153,7 +154,7 @@ def cases(rng, tier, shard, nshards, ctx):
             a['v'] = gen_value(rng, True)
         elif o < 0.75:
             fams = FAM.get(fam) or ([ua, ub])
-            op = dict(k='value', u=rng.choice([x for x in fams if x] + [ub or ua or 'm']))
+            op = dict(k='value', u=rng.choice([x for x in fams if x] + [ub or ua or 'm'] + LOG_LINEAR.get(ua, [])), dtype=rng.choice([None, None, 'float', 'int']))
         elif o < 0.78:
             op = dict(k='units')
         elif o < 0.89:
@@ -181,8 +182,11 @@ def cases(rng, tier, shard, nshards, ctx):
             tgt = rng.choice(['res', 'res', 'a', 'b'])
             s = rng.random()
             units = (FAM.get(fam) or LOGS + TEMPS)
-            if s < 0.4:
-                step = ['to', rng.choice([x for x in units if x] or ['m'])]
+            if s < 0.08:
+                # conversion into a Quantity used as unit (1 = 2.5 x the unit); the target quantity is one more live object
+                step = ['toq', rng.choice([x for x in units if x] or ['m']), rng.choice([2.5, 0.5, 10.0])]
+            elif s < 0.4:
+                step = ['to', rng.choice([x for x in units if x] + LOG_LINEAR.get(ua, []) or ['m'])]
             elif s < 0.55:
                 step = ['rebase']
             elif s < 0.7:
@@ -313,7 +317,12 @@ def _run(case, ctx):
         elif k == 'pow':
             classes.append('op:pow')
             e = op['e']
-            res = A ** (tuple(e) if isinstance(e, list) else e)
+            if isinstance(e, list) and op.get('fraction_object'):
+                from scinumtools.units import Fraction
+                classes.append('op:pow-fraction-object')
+                res = A ** Fraction(e[0], e[1])
+            else:
+                res = A ** (tuple(e) if isinstance(e, list) else e)
         elif k == 'neg':
             classes.append('op:neg')
             res = -A
@@ -323,7 +332,13 @@ def _run(case, ctx):
             res = A[slice(i[0], i[1])] if isinstance(i, list) else A[i]
         elif k == 'value':
             classes.append('op:value')
-            res = A.value(op['u'])
+            if op.get('dtype'):
+                classes.append('op:value-with-dtype')
+                res = A.value(op['u'], dtype={'float': float, 'int': int}[op['dtype']])
+            else:
+                res = A.value(op['u'])
+            if op['u'] in LOG_LINEAR.get(a_spec['u'], []):
+                classes.append('op:value-level-in-linear-unit')
         elif k == 'units':
             classes.append('op:value')
             res = A.units()
@@ -412,6 +427,13 @@ def _run(case, ctx):
         try:
             if step[0] == 'to':
                 q.to(step[1])
+            elif step[0] == 'toq':
+                target = Qc(step[2], step[1])
+                live_t = C.fingerprint(target)
+                q.to(target)
+                mon['to_quantity_target_compares'] = mon.get('to_quantity_target_compares', 0) + 1
+                if C.fingerprint(target) != live_t:
+                    devs.append(dev('in-place-to-changes-the-target-quantity', dict(op=op, step=step, before=C.describe(live_t), after=C.describe(C.fingerprint(target)))))
             elif step[0] == 'rebase':
                 q.rebase()
             elif step[0] == 'abse':
